@@ -64,6 +64,10 @@ func main() {
 	out := flag.String("out", "", "output directory")
 	list := flag.Bool("list", false, "list properties")
 	flag.Parse()
+	if os.Getenv("HARNESS_CHILD") == "concurrent-decode" {
+		concurrentDecodeChild(os.Getenv("HARNESS_CHILD_INPUT"))
+		return
+	}
 	if *list {
 		ids := []string{}
 		for k := range runners {
